@@ -27,3 +27,17 @@ PROPS["C18"] = {
     "assumptions": ["TZ=UTC for the oracle's Local zone", "time.Parse behaves as transcribed in Iso8601/Ext.v outside the sampled inputs"],
     "env": {"TZ": "UTC"},
 }
+
+PROPS["C20"] = {
+    "harness": "c20",
+    "builds": [("harness", "verif"), ("harness_purego", "verif,purego")],
+    "models": ["Generated/AsciiGen.v (translated from /repo/ascii/*.go)", "Generated/AsmAsciiGen.v (translated from the purego sources of segmentio/asm v1.1.3 ascii)"],
+    "rule": "exhaustive single-deviation family: every length 0..L, every position, 12 boundary byte values (all 256 in thorough), each "
+            "placed at all 8 alignments inside a larger buffer (observable = common answer over alignments and over the []byte/string variants); "
+            "fold: every pair of 15 fold-boundary bytes at every position, every prefix/suffix split; byte and rune predicates; seeded random strings; "
+            "both the default (amd64 assembly) and the purego build; compared impl vs byte-wise Go oracle, impl vs translated Coq model, oracle vs Coq spec",
+    "nontrivial": nontrivial_default,
+    "trusted_base": COMMON_TB + ["the AVX2/SSE assembly of segmentio/asm is NOT modelled: the theorems are about the purego algorithms (translated) and the repo wrappers; the assembly build is tied only by the exhaustive single-deviation family",
+                                 "gen/config.json extern table mapping the unsafe.Pointer loads of valid_default.go / valid_print_default.go to le64/le32/le16/at_ on the byte list"],
+    "assumptions": ["inputs shorter than 2^63 bytes (Go's own limit)"],
+}
